@@ -36,6 +36,10 @@ type Case struct {
 	Excl    sc.Excl        `json:"excl"`
 	GenExcl []string       `json:"gen_excl,omitempty"` // classes kept out by construction when the case was drawn
 	Setup   []sc.BlockSpec `json:"setup,omitempty"`
+	// Rank != 0: the setup makes the validator ranking (stake order = signer index) change at a
+	// period-end block P and the first probe block carries a real equivocation of round
+	// P + StakeLookBack - 1 + (Rank - 2), i.e. Rank 2 is aligned with the ranking change.
+	Rank int `json:"rank,omitempty"`
 	Probe   []sc.BlockSpec `json:"probe"`
 }
 
@@ -62,9 +66,14 @@ func genCase(t *rapid.T) Case {
 		for i := 1; i < int(cfg.Freq)+17; i++ {
 			c.Setup = append(c.Setup, sc.BlockSpec{CB: i % 2})
 		}
+	case 5, 6, 7:
+		genRankingChange(t, &c, cfg)
 	}
 	np := rapid.IntRange(1, 4).Draw(t, "nprobe")
-	height := len(c.Setup)
+	if c.Rank != 0 {
+		np = rapid.IntRange(0, 2).Draw(t, "nprobe-after")
+	}
+	height := len(c.Setup) + len(c.Probe)
 	for i := 0; i < np; i++ {
 		bs := sc.BlockSpec{CB: rapid.IntRange(0, 2).Draw(t, "cb")}
 		// evidences only in blocks that do not end a period: nothing else touches validators there
@@ -75,8 +84,8 @@ func genCase(t *rapid.T) Case {
 				var es sc.EvSpec
 				if j > 0 && sc.Rare(t, "dup-in-block", 25) {
 					es = bs.Ev[j-1] // the same evidence twice in one block
-				} else if i > 0 && len(c.Probe[i-1].Ev) > 0 && sc.Rare(t, "repeat-later", 25) {
-					es = c.Probe[i-1].Ev[0] // the same evidence again in the next block
+				} else if len(c.Probe) > 0 && len(c.Probe[len(c.Probe)-1].Ev) > 0 && sc.Rare(t, "repeat-later", 25) {
+					es = c.Probe[len(c.Probe)-1].Ev[0] // the same evidence again in the next block
 					es.Round--
 				} else {
 					es = sc.GenEvidence(t, known, &c.GenExcl)
@@ -88,6 +97,61 @@ func genCase(t *rapid.T) Case {
 		c.Probe = append(c.Probe, bs)
 	}
 	return c
+}
+
+// stakeLookBack is CaravelParams.StakeLookBack of the installed parameter set (left unscaled).
+const stakeLookBack = 16
+
+// genRankingChange: a stake change takes effect at the first period end P = freq-1 and changes the
+// validator ranking (descending stake = the signer index votes and evidences carry): either a house
+// validator's deposit overtakes its neighbour, or a new house validator enters above the smallest
+// one. Filler blocks follow (every chamber validator keeps proposing), and the first probe block
+// - block R+1 - carries a detector-shaped evidence of a real equivocation of round
+// R = P + StakeLookBack - 1 + off by one of the validators whose index moved: the look-back set of
+// round R is the ranking BEFORE the change exactly when off <= 0, and that of round R+1 the one
+// after it when off >= 0. (StakeLookBack is a multiple of the period, so for off = 0 block R+1 is a
+// period end: the period-end oracle judges it.)
+func genRankingChange(t *rapid.T, c *Case, cfg *sc.Config) {
+	var houses []int
+	for i, g := range c.Gen {
+		if g.Role == 3 {
+			houses = append(houses, i)
+		}
+	}
+	for len(houses) < 2 {
+		c.Gen = append(c.Gen, sc.GenVal{ID: len(c.Gen), Role: 3, YOU: 100})
+		houses = append(houses, len(c.Gen)-1)
+	}
+	base := int64(cfg.MinStakes[2]) + rapid.Int64Range(0, 20).Draw(t, "rank-base")
+	delta := rapid.Int64Range(1, 20).Draw(t, "rank-delta")
+	lo, hi := houses[0], houses[1]
+	c.Gen[lo].YOU, c.Gen[lo].Sub, c.Gen[lo].Offline = base, 0, false
+	c.Gen[hi].YOU, c.Gen[hi].Sub, c.Gen[hi].Offline = base+delta, 0, false
+	for _, h := range houses[2:] {
+		c.Gen[h].YOU += 60 // keep the others clear of the pair
+	}
+	off := rapid.SampledFrom([]int{0, 0, 0, -1, 1}).Draw(t, "rank-off")
+	c.Rank = 2 + off
+	first := sc.BlockSpec{CB: 0, Pool: true}
+	accused := c.Gen[lo].ID
+	if rapid.Bool().Draw(t, "rank-by-create") {
+		// a new house validator with MinStakes+59 units ranks above `lo` (and `hi` if small enough)
+		first.Ops = []sc.Op{{K: "vcreate", V: sc.NVal - 1, N: 59, X: 4}}
+	} else {
+		first.Ops = []sc.Op{{K: "vdeposit", V: -1 - c.Gen[lo].ID, N: int(delta) + 9}} // delta+10 units: lo overtakes hi
+		if rapid.Bool().Draw(t, "rank-accuse-hi") {
+			accused = c.Gen[hi].ID
+		}
+	}
+	p := int(cfg.Freq) - 1
+	r := p + stakeLookBack - 1 + off
+	c.Setup = append(c.Setup, first)
+	for i := 1; i < r; i++ {
+		c.Setup = append(c.Setup, sc.BlockSpec{CB: i % 4})
+	}
+	kind := rapid.SampledFrom([]uint8{sc.KPrevote, sc.KPrecommit}).Draw(t, "rank-kind")
+	c.Probe = append(c.Probe, sc.BlockSpec{CB: r % 4, Ev: []sc.EvSpec{{Signer: 100 + accused, Index: uint32(rapid.IntRange(1, 3).Draw(t, "rank-index")), VoteType: kind,
+		Adv: rapid.Bool().Draw(t, "rank-adv"), Pairs: []sc.PairSpec{{Kind: kind, Hash: 0}, {Kind: kind, Hash: 1}}}}})
 }
 
 // ---------------------------------------------------------------------------------
@@ -257,16 +321,6 @@ func runCase(c Case) kit.Result {
 		if err != nil {
 			return kit.Fail("observe", "block %d: %v", num, err)
 		}
-		if step.PeriodEnd {
-			// period ends carry no evidences (generator) and change validators for many
-			// legitimate reasons (rewards, settlements, inactivity, pending transactions):
-			// they belong to C07; here they only advance the chain.
-			if err := net.B.Import(blk); err != nil {
-				return kit.Discarded("period-end block rejected by the importer (C06 matter): " + err.Error())
-			}
-			pre = post
-			continue
-		}
 		// evidences the builder's pool kept as pending (future round) and that mature in this block
 		// (processing order: the pool holds the earlier-posted ones first)
 		var effective []*sc.EvInfo
@@ -318,19 +372,8 @@ func runCase(c Case) kit.Result {
 				accusedNow[ev.Accused] = append(accusedNow[ev.Accused], ev)
 			}
 		}
-		// --- builder and validator alike: the importer accepts the block
-		importErr := net.B.Import(blk)
-		if importErr != nil {
-			for _, ev := range effective {
-				if v := pre.ValByMain[ev.Accused]; v != nil && ev.PassesGate && ev.RightHeight && !ev.Spec.Adv && sc.PenaltyAmount(v.Token).Sign() == 0 {
-					return kit.Fail(classZeroPenalty, "block %d: validator %d (Token %s LU, penalty amount 0) is expelled by the builder but the evidence is not written to SlashData: the importer rejects the block: %v",
-						num, ev.AccusedID, v.Token, importErr)
-				}
-			}
-			return kit.Fail("builder-validator-disagree", "block %d (slash data %d bytes, adversarial %v): the importer rejects the block: %v", num, len(hdr.SlashData), step.AdvSlash, importErr)
-		}
-		// --- slashing logs of the block
-		logged := map[common.Address]*big.Int{}
+		// --- slashing logs of the block (all, and those of type double sign)
+		logged, dsLogged := map[common.Address]*big.Int{}, map[common.Address]*big.Int{}
 		for _, l := range step.Built.Receipts[len(step.Built.Receipts)-1].Logs {
 			if len(l.Topics) > 0 && l.Topics[0] == common.StringToHash(staking.LogTopicSlashing) {
 				var sd staking.SlashDataV5
@@ -343,7 +386,77 @@ func runCase(c Case) kit.Result {
 				if sd.Total != nil {
 					logged[sd.MainAddress].Add(logged[sd.MainAddress], sd.Total)
 				}
+				if sd.Type == staking.EventTypeDoubleSign {
+					if dsLogged[sd.MainAddress] == nil {
+						dsLogged[sd.MainAddress] = new(big.Int)
+					}
+					if sd.Total != nil {
+						dsLogged[sd.MainAddress].Add(dsLogged[sd.MainAddress], sd.Total)
+					}
+				}
 			}
+		}
+		if step.PeriodEnd {
+			// A period end changes validators for many legitimate reasons (rewards, settlements,
+			// inactivity, pending transactions - C07's matter), so the record comparison is not
+			// used here. Evidence is still judged, through what only double-sign processing
+			// produces: a slashing log of type double sign for the validator and the expelled flag
+			// (recoverFromExpiredExpelling cannot clear it in the same block).
+			if err := net.B.Import(blk); err != nil {
+				return kit.Discarded("period-end block rejected by the importer (C06 matter): " + err.Error())
+			}
+			for main, total := range dsLogged {
+				id := sc.ValIndexByMain(main)
+				var gate []*sc.EvInfo
+				for _, ev := range accusedNow[main] {
+					if ev.PassesGate {
+						gate = append(gate, ev)
+					}
+				}
+				if len(gate) == 0 {
+					return kit.Fail("slashed-without-evidence", "period-end block %d: validator %d has a double-sign slashing log (%s) but no evidence at this height passes the signature gate against it", num, id, sc.LU(total))
+				}
+				if id >= 0 && corp.honest(id) {
+					cls, culprit := attribute(c.Cfg, gate)
+					return kit.Fail(cls, "period-end block %d: validator %d never signed two different votes of one kind in one round/index, yet an evidence assembled from its votes (via %s; pairs %s) was accepted: %s taken",
+						num, id, via(culprit), describePairs(culprit), sc.LU(total))
+				}
+				if v := pre.ValByMain[main]; v != nil && total.Cmp(sc.PenaltyAmount(v.Token)) > 0 {
+					return kit.Fail("penalty-exceeds-fraction", "period-end block %d: %s taken from validator %d, the configured fraction of its %s allows %s", num, sc.LU(total), id, sc.LU(v.Token), sc.LU(sc.PenaltyAmount(v.Token)))
+				}
+				accepted++
+			}
+			for main, evs := range accusedNow {
+				v := pre.ValByMain[main]
+				if v == nil || sc.PenaltyAmount(v.Token).Sign() == 0 {
+					continue
+				}
+				for _, ev := range evs {
+					if !ev.PassesGate || !ev.DetectorShaped() {
+						continue
+					}
+					p := post.ValByMain[main]
+					if dsLogged[main] == nil || dsLogged[main].Sign() == 0 || p == nil || !p.Expelled || p.IsOnline() {
+						return kit.Fail("equivocation-not-penalised", "period-end block %d: evidence of two different %d-votes of validator %d in round %d index %d (signer index %d of that round's look-back set, via %s) was not acted on: double-sign log %v, expelled %v",
+							num, ev.Spec.VoteType, sc.ValIndexByMain(main), ev.Round, ev.Spec.Index, ev.SignerIdx, via(ev), dsLogged[main], p != nil && p.Expelled)
+					}
+					genuineOK++
+					break
+				}
+			}
+			pre = post
+			continue
+		}
+		// --- builder and validator alike: the importer accepts the block
+		importErr := net.B.Import(blk)
+		if importErr != nil {
+			for _, ev := range effective {
+				if v := pre.ValByMain[ev.Accused]; v != nil && ev.PassesGate && ev.RightHeight && !ev.Spec.Adv && sc.PenaltyAmount(v.Token).Sign() == 0 {
+					return kit.Fail(classZeroPenalty, "block %d: validator %d (Token %s LU, penalty amount 0) is expelled by the builder but the evidence is not written to SlashData: the importer rejects the block: %v",
+						num, ev.AccusedID, v.Token, importErr)
+				}
+			}
+			return kit.Fail("builder-validator-disagree", "block %d (slash data %d bytes, adversarial %v): the importer rejects the block: %v", num, len(hdr.SlashData), step.AdvSlash, importErr)
 		}
 		totalTaken := new(big.Int)
 		// --- per validator
@@ -382,8 +495,8 @@ func runCase(c Case) kit.Result {
 				// (b) a detector-shaped evidence of a real equivocation, at the right height, must be accepted
 				for _, ev := range gate {
 					if ev.DetectorShaped() && sc.PenaltyAmount(v.Token).Sign() > 0 {
-						return kit.Fail("equivocation-not-penalised", "block %d: evidence of two different %d-votes of validator %d in round %d index %d (via %s) changed nothing",
-							num, ev.Spec.VoteType, id, ev.Round, ev.Spec.Index, via(ev))
+						return kit.Fail("equivocation-not-penalised", "block %d: evidence of two different %d-votes of validator %d in round %d index %d (signer index %d of that round's look-back set, via %s) changed nothing",
+							num, ev.Spec.VoteType, id, ev.Round, ev.Spec.Index, ev.SignerIdx, via(ev))
 					}
 				}
 				continue
@@ -404,13 +517,7 @@ func runCase(c Case) kit.Result {
 				// (once-map). Which root-cause classes the tree under test accepts at all is
 				// probed empirically (treeAccepts), so a rejected evidence that merely sits in the
 				// same block (e.g. a true duplicate pair after its repair) is never blamed.
-				cls, culprit := "honest-validator-slashed", gate[0]
-				for _, ev := range gate {
-					if hc := ev.HonestClass(); hc != "" && treeAccepts(c.Cfg, hc) {
-						cls, culprit = hc, ev
-						break
-					}
-				}
+				cls, culprit := attribute(c.Cfg, gate)
 				return kit.Fail(cls, "block %d: validator %d never signed two different votes of one kind in one round/index, yet an evidence assembled from its votes (via %s; pairs %s) was accepted: %s, %s taken, status %d->%d expelled %v->%v",
 					num, id, via(culprit), describePairs(culprit), changed, sc.LU(taken), v.Status, p.Status, v.Expelled, p.Expelled)
 			}
@@ -467,6 +574,8 @@ func runCase(c Case) kit.Result {
 	flag(withWithdraws, "state:unfinished-withdraws")
 	flag(withRisk, "state:risk-obligation")
 	flag(len(c.Setup) > 0, "with-setup")
+	flag(c.Rank == 2, "evidence-at-ranking-change-boundary")
+	flag(c.Rank == 1 || c.Rank == 3, "evidence-next-to-ranking-change-boundary")
 	labels = append(labels, c.GenExcl...)
 	for l := range w.Excluded {
 		labels = append(labels, l)
@@ -530,6 +639,17 @@ func treeAccepts(cfg int, class string) bool {
 	}()
 	acceptCache[class] = accepted
 	return accepted
+}
+
+// attribute names the root-cause class of an accepted evidence against an honest validator:
+// the first candidate, in processing order, whose class the tree under test accepts at all.
+func attribute(cfg int, gate []*sc.EvInfo) (string, *sc.EvInfo) {
+	for _, ev := range gate {
+		if hc := ev.HonestClass(); hc != "" && treeAccepts(cfg, hc) {
+			return hc, ev
+		}
+	}
+	return "honest-validator-slashed", gate[0]
 }
 
 func describePairs(ev *sc.EvInfo) string {
